@@ -404,7 +404,7 @@ func runC17(c *ctx) {
 		}
 	}
 	// compile-time: empty and invalid patterns are errors exactly when the engine rejects them
-	bad := []string{"//", "/(/", "/[/", "/a)/", "/*/", "/a{2,1}/", `/\/`, "/a/x", "/(?P<n>a)/", "/a**/", "/[a/", `/\p{Foo}/`, "/(?<!a)b/", `/\1(a)/`, "/a/i", "/a/ms", "/[[:alpha:]]/", `/\//`, `/a\/b/`}
+	bad := []string{"//", "//i", "//m", "//s", "//ims", "//mi", "/(/", "/[/", "/a)/", "/*/", "/a{2,1}/", `/\/`, "/a/x", "/(?P<n>a)/", "/a**/", "/[a/", `/\p{Foo}/`, "/(?<!a)b/", `/\1(a)/`, "/a/i", "/a/ms", "/[[:alpha:]]/", `/\//`, `/a\/b/`}
 	for _, b := range bad {
 		prog := "$contains(\"a/b\", " + b + ")"
 		_, cerr := jsonata.Compile(prog)
